@@ -90,8 +90,14 @@ func (ex *Exec) convert(fr *Frame, st *State, v Val, from, to types.Type, pos to
 			case fs == SString && ts == SString:
 				return x
 			case isBV(fs) && ts == SString:
+				// string(r): one byte for r < 128 (SMT str.from_code); other runes are UTF-8 encoded (uninterpreted)
+				if k, ok := constBV(x); ok && k >= 0 && k < 128 {
+					return StrConst(string(rune(k)))
+				}
 				ex.declareUF("rune_to_string", []string{bvSort(64)}, SString)
-				return app(SString, "rune_to_string", Extend(&Term{S: x.S, Sort: x.Sort, Signed: fsigned}, 64, true))
+				r64 := Extend(&Term{S: x.S, Sort: x.Sort, Signed: fsigned}, 64, true)
+				return ex.define("runestr", Ite(And(app(SBool, "bvsge", r64, BVInt(0, 64, true)), app(SBool, "bvslt", r64, BVInt(128, 64, true))),
+					&Term{S: "(str.from_code (bv2nat " + r64.S + "))", Sort: SString}, app(SString, "rune_to_string", r64)))
 			}
 		}
 	}
